@@ -2048,12 +2048,15 @@ impl<const N: usize, T> Default for CircularBuffer<N, T> {
 }
 
 impl<const N: usize, const M: usize, T> From<[T; M]> for CircularBuffer<N, T> {
-    fn from(mut arr: [T; M]) -> Self {
+    fn from(arr: [T; M]) -> Self {
+        // Take ownership of the elements right away: `arr` must never be dropped as a whole, not even
+        // if dropping one of the discarded elements panics (that would drop elements twice)
+        let mut arr = mem::ManuallyDrop::new(arr);
         #[cfg(feature = "unstable")]
         let mut elems = [const { MaybeUninit::uninit() }; N];
         #[cfg(not(feature = "unstable"))]
         let mut elems = unsafe { MaybeUninit::<[MaybeUninit<T>; N]>::uninit().assume_init() };
-        let arr_ptr = &arr as *const T as *const MaybeUninit<T>;
+        let arr_ptr = &*arr as *const T as *const MaybeUninit<T>;
         let elems_ptr = &mut elems as *mut MaybeUninit<T>;
         let size = if N >= M { M } else { N };
 
@@ -2066,21 +2069,21 @@ impl<const N: usize, const M: usize, T> From<[T; M]> for CircularBuffer<N, T> {
             ptr::copy_nonoverlapping(arr_ptr.add(M - size), elems_ptr, size);
         }
 
-        // Prevent destructors from running on those elements that we've taken ownership of; only
-        // destroy the elements that were discareded
-        //
-        // SAFETY: All elements in `arr` are initialized; `forget` will make sure that destructors
-        // are not run twice
-        unsafe {
-            ptr::drop_in_place(&mut arr[..M - size]);
-        }
-        mem::forget(arr);
-
-        Self {
+        let buf = Self {
             size,
             start: 0,
             items: elems,
+        };
+
+        // Only destroy the elements that were discarded; the others are now owned by `buf`
+        //
+        // SAFETY: All elements in `arr` are initialized, and `arr` is wrapped in a `ManuallyDrop`,
+        // so destructors are not run twice
+        unsafe {
+            ptr::drop_in_place(&mut arr[..M - size]);
         }
+
+        buf
     }
 }
 
